@@ -79,8 +79,11 @@ class Group:
 
         # handle the basecase where the spec stops immediately
         # TODO: something smarter
-        if type(self.spec) in (dict, list):
-            ret = type(self.spec)()
+        base = self.spec
+        while type(base) is Limit:  # a Limit passes its subspec's result through
+            base = base.subspec
+        if type(base) in (dict, list):
+            ret = type(base)()
         else:
             ret = None
 
